@@ -17,10 +17,12 @@ NOTES = {
  'C14-1': 'strengthened: missed at first (0x0b not among the keys); a key and a string constant holding every control character and every printable ASCII character added',
  'C15-1': 'strengthened: missed at first (no three-letter field name with an inner capital among the generated names); a naming leg encodes 17 field names under 5 option sets with every encoder and requires one spelling',
  'C16-3': 'not caught by C16 (no value with an escaped key after an escaped string); caught by C03 (token family, string with escapes split outside the token)',
+ 'C13-3': 'strengthened: missed at first (RemoveOne doing nothing is within "at most one location", which the check accepts); the *One forms are now also compared between simple and gen data ("behave the same on simple and gen data")',
+ 'C17-3': 'not caught by C17 (its documents have plain keys); it is a tokenizer defect: C02 gained the string-pair family (every ordered pair of string items in five two-string placements, so that what one string leaves behind in a front-end shows in the next) and catches it',
  'C19-1': 'strengthened: missed at first; the perturbation catalogue gained rename (same member count, different key set)',
  'C20-1': 'strengthened: missed at first (each has no description in doc.go, asmref does not model it); an item-independence leg compares each(list) with the concatenation of each([item])',
 }
-ALSO = {'C16-3': 'C03', 'C10-2': 'C10, C02'}
+ALSO = {'C16-3': 'C03', 'C10-2': 'C10, C02', 'C17-3': 'C02'}
 verify = {}
 for l in open(os.path.join(SRC, 'verify.log')):
     m = re.match(r'(C\d+-\d): pkg=(\S+) suite_passes_with_change=(\S+) demo_fails_with_change=(\S+) demo_passes_without_change=(\S+) confirmed=(\d)', l)
